@@ -173,6 +173,11 @@ struct alignas(Align) Blob
     friend bool operator<(const Blob& a, const Blob& c) { return a.b[0] < c.b[0]; }
 };
 
+template <class T>
+inline constexpr bool IS_BLOB = false;
+template <int N, int A>
+inline constexpr bool IS_BLOB<Blob<N, A>> = true;
+
 template <class T, class = void>
 struct VT
 {
